@@ -121,7 +121,7 @@ var lexFragments = []string{
 
 var sampleStatements = []string{
 	"T | where a == 'x;y'", "let x = 1", "T | project `a;b`", "T // c;\n| count", "T | where a == \"q;\"", "X", "T | take 0x1f", "T | where a =~ 'b' and c in (1, 2)",
-	"T | where s == 'unterminated", "T | extend z = 1e", "T | where a < 0x", "T | where x /", "T | where x !", "T | where `un", "", " ", "\n", "// only comment", "T | where a == 1 // trailing",
+	"T | where s == 'unterminated", "T | extend z = 1e", "T | where a < 0x", "T | where x /", "T | where x !", "T | where `un", "", " ", "\n", "// only comment", "T | where a == 1 // trailing", "T | where f(a", "T | where (a", "T | where a[1", "T | where x in (1", "T | join (U", "b) | count", "T | where strcat('a', 'b'",
 }
 
 func randSemis(r *rng) string {
